@@ -21,7 +21,7 @@ let () =
          | "case" -> Printf.printf "%s\n" line; idx := 0
          | "init" ->
            st := init_state (parse_env f) (unhex (get f "caller")) (unhex (get f "defdir"))
-         | "dumpfs" -> print_fs !idx !st
+         | "dumpfs" -> print_fs !idx !st; Printf.printf "dirs %d list=*\n" !idx
          | "counters" -> print_counters !idx !st
          | "readslots" ->
            let path = unhex (get f "path") in
